@@ -7,6 +7,7 @@
 #include <stdio.h>
 #include <stdlib.h>
 #include <string.h>
+#include <float.h>
 typedef long double Sc;
 
 static int ghost_msg, ghost_exit, ghost_nan;
@@ -30,6 +31,8 @@ static Sc verf(Sc a) { return erfl(a); }
 static Sc vabs(Sc a) { return fabsl(a); }
 static Sc vpowi(Sc b, int n) { return powl(b, (Sc)n); }
 static Sc vpow(Sc b, Sc e) { return powl(b, e); }
+#define VF_EPS() ((Sc)LDBL_EPSILON)
+#define VF_NAN() (ghost_nan = 1, (Sc)NAN)
 static Sc pi, PI;
 #define VF_PI_OK (pi == PI)
 #define REQ(e)
